@@ -25,6 +25,11 @@ def run_property(prop, tier, seed, root=None, overlay=None, only=None, quiet=Fal
         if not chk.findings():
             raise
         partial = str(e)
+    if chk.undecided and partial is None:
+        msg = "%d obligation(s) could not be decided (the abstract value needed is unknown): %s" % (len(chk.undecided), "; ".join("[%s] %s" % km for km in chk.undecided[:4]))
+        if not chk.findings():
+            raise model.AnalysisError(msg)
+        partial = msg
     chk.partial = partial
     if only:
         chk.rules = [r for r in chk.rules if r.id == only or r.id.startswith(only)]
